@@ -281,6 +281,27 @@ func generate(family string, n int, seed uint64, out *bufio.Writer) {
 		for i := 0; i < n; i++ {
 			genEncOp(r, gcfg, p)
 		}
+	case "hacc":
+		for i := 0; i < n; i++ {
+			h := randHeaders(r, gcfg)
+			typ := randAny(r, gcfg, 1)
+			if r.chance(1, 2) {
+				typ = r.pickHV([]*hv{hText("a/b"), hInt(5), {kind: "int", i: 7, spell: "u8"}, hInt(-1), hText("")})
+			}
+			claims := &hv{kind: "map"}
+			for _, k := range []int64{1, 2, 3} {
+				if r.chance(1, 2) {
+					var v *hv
+					if r.chance(2, 3) {
+						v = hText("x")
+					} else {
+						v = randAny(r, gcfg, 1)
+					}
+					claims.items = append(claims.items, &hv{kind: "int", i: k, spell: r.pick2s([]string{"i", "i", "i64"})}, v)
+				}
+			}
+			p("hacc %s %s %s", entriesGo(h.prot), typ.gotext(), claims.gotext())
+		}
 	case "s1":
 		for i := 0; i < n; i++ {
 			genS1Op(r, gcfg, p)
